@@ -38,7 +38,8 @@ type pipeCase struct {
 			T string `json:"t"`
 			V string `json:"v"`
 		} `json:"up"`
-		Ct string `json:"ct"`
+		Ct  string `json:"ct"`
+		Krb bool   `json:"krb"`
 	} `json:"cfg"`
 	Req struct {
 		Kind string `json:"kind"`
@@ -341,7 +342,7 @@ func pipeHostOf(c *pipeCase, alias string) string {
 }
 
 func pipeFwdCfg(c *pipeCase, host string) fwdCfg {
-	fc := fwdCfg{Name: "fwd", Localhost: c.Cfg.Lh, TimeFrame: c.Cfg.Tf}
+	fc := fwdCfg{Name: "fwd", Localhost: c.Cfg.Lh, TimeFrame: c.Cfg.Tf, Kerberos: c.Cfg.Krb}
 	if c.Cfg.Tf == "off" {
 		fc.TimeFrame = ""
 	}
@@ -800,7 +801,9 @@ func (pe *pipeEnv) runCase(c *pipeCase) map[string]any {
 					fail("request to an HTTP proxy hop not in absolute form: " + h.Line)
 				}
 			}
-			if len(h.PAuth) > 0 {
+			if c.Cfg.Krb && len(h.PAuth) == 1 && h.PAuth[0] == "Negotiate c3R1Yg==" {
+				// the proxy's own (Kerberos) authentication towards the upstream proxy
+			} else if len(h.PAuth) > 0 {
 				fail("client Proxy-Authorization forwarded to " + h.Peer)
 			}
 		}
